@@ -122,6 +122,84 @@ func verif_C16_body() {
 	verifAssert(be.find("Mail", "marker@v") >= 0 && be.count("Mail") == 2, "C16.nothing-of-the-body-executed")
 }
 
+// verif_C16_second_message: two messages sent one after the other through the
+// SAME client connection (the writer of the first has been closed before the
+// second transaction starts). Whatever the first message was - empty, ending
+// in the middle of a line, ending in CR LF - the second one arrives as
+// refNormalize of itself, and so does the first: no line state is carried from
+// one message into the next.
+func verif_C16_second_message() {
+	b1 := nondetBytes(verifBound(2, 3))
+	b2 := nondetBytes(verifBound(3, 4))
+	for _, b := range [][]byte{b1, b2} {
+		for i, ch := range b {
+			if ch == '\r' {
+				assume(i+1 < len(b) && b[i+1] == '\n')
+			}
+		}
+	}
+	lmtp := nondetBool()
+	tx := "250 2.0.0 ok\r\n250 2.0.0 ok\r\n354 go\r\n250 2.0.0 ok\r\n"
+	c, vc := verifClient(tx+tx, nil)
+	c.lmtp = lmtp
+	send := func(from string, b []byte) bool {
+		if c.Mail(from, nil) != nil || c.Rcpt("r@v", nil) != nil {
+			return false
+		}
+		var w io.WriteCloser
+		var err error
+		if lmtp && nondetBool() {
+			w, err = c.LMTPData(func(string, *SMTPError) {})
+		} else {
+			w, err = c.Data()
+		}
+		if err != nil {
+			return false
+		}
+		cut := nondetInt(0, len(b))
+		w.Write(b[:cut])
+		w.Write(b[cut:])
+		return w.Close() == nil
+	}
+	ok1 := send("one@v", b1)
+	ok2 := send("two@v", b2)
+	verifAssert(ok1 && ok2, "C16.second-message-both-sent")
+	if !ok1 || !ok2 {
+		return
+	}
+	var got [][]byte
+	var rerrs []error
+	be := &vbackend{}
+	be.dataFn = func(_ *vsession, r io.Reader) error {
+		g, rerr := verifReadAll(r, 3)
+		got = append(got, g)
+		rerrs = append(rerrs, rerr)
+		if rerr == io.EOF {
+			return nil
+		}
+		return rerr
+	}
+	s, _ := verifServer(be)
+	s.LMTP = lmtp
+	hello := "EHLO c\r\n"
+	if lmtp {
+		hello = "LHLO c\r\n"
+	}
+	in := append([]byte(hello), vc.out...)
+	in = append(in, "MAIL FROM:<marker@v>\r\n"...)
+	verifServe(s, in, io.EOF)
+	verifObserve("c16second", b1, b2, lmtp, len(got))
+	verifAssert(len(got) == 2, "C16.second-message-two-messages-arrive")
+	if len(got) != 2 {
+		return
+	}
+	verifAssert(rerrs[0] == io.EOF && rerrs[1] == io.EOF, "C16.second-message-both-complete")
+	verifAssert(string(got[0]) == string(refNormalize(b1)), "C16.first-message-arrives-normalised")
+	verifAssert(string(got[1]) == string(refNormalize(b2)), "C16.second-message-arrives-normalised")
+	verifAssert(be.find("Mail", "marker@v") >= 0 && be.count("Mail") == 3, "C16.second-message-nothing-executed")
+	verifReach("C16.second-message-end")
+}
+
 // verif_C16_envelope: "exactly the sender and recipient list given". A list of
 // up to three recipients drawn from two addresses (so that repeats occur), each
 // with nil or empty options, is handed to the client; every Rcpt is accepted.
